@@ -5,7 +5,7 @@ Two layers:
 1. repository plumbing (no randomness)
      mkrepo(path, repo_id, masters=())        skeleton: profiles/repo_name, metadata/layout.conf, eclass/
      write_file(path, text, mtime=None)       write + optional explicit integer mtime
-     open_repo(overlay, master=None, cache=None, flat_location=None)
+     open_repo(overlay, master=None, cache=None, flat_location=None, readonly=False)
                                              fresh pkgcore UnconfiguredTree for `overlay` (stacked on `master`
                                              exactly like pkgcore.ebuild.repository._sort_eclasses stacks it:
                                              overlay eclasses shadow the master's); cache: None | "md5" | "flat"
@@ -63,8 +63,9 @@ def eclass_path(repo, name):
     return pjoin(repo, "eclass", name + ".eclass")
 
 
-def open_repo(overlay, master=None, cache=None, flat_location=None):
-    """fresh repo object graph (nothing shared with earlier calls)."""
+def open_repo(overlay, master=None, cache=None, flat_location=None, readonly=False):
+    """fresh repo object graph (nothing shared with earlier calls); readonly: the cache is opened read-only (what
+    pkgcore configures for users who cannot write to the cache location)."""
     from pkgcore.cache import flat_hash
     from pkgcore.ebuild import eclass_cache, repo_objs, repository
 
@@ -80,9 +81,9 @@ def open_repo(overlay, master=None, cache=None, flat_location=None):
     if cache is None:
         caches = ()
     elif cache == "md5":
-        caches = (flat_hash.md5_cache(overlay),)
+        caches = (flat_hash.md5_cache(overlay, readonly=readonly),)
     elif cache == "flat":
-        caches = (flat_hash.database(flat_location),)
+        caches = (flat_hash.database(flat_location, readonly=readonly),)
     else:
         raise ValueError(cache)
     return repository.UnconfiguredTree(overlay, eclass_cache=ec, masters=masters, cache=caches,
